@@ -4,6 +4,7 @@ import (
 	"fmt"
 	"os"
 	"path/filepath"
+	"sync"
 )
 
 // Loader defines the interface for template loading
@@ -30,6 +31,30 @@ type FileSystemLoader struct {
 	defaultPaths []string
 	// Stores paths for each loaded template to avoid repeatedly searching for the file
 	templatePaths map[string]string
+	// Guards templatePaths: one loader serves every goroutine that uses the engine
+	pathsMu sync.RWMutex
+}
+
+// knownPath returns the file a template was found at earlier, if any
+func (l *FileSystemLoader) knownPath(name string) (string, bool) {
+	l.pathsMu.RLock()
+	filePath, ok := l.templatePaths[name]
+	l.pathsMu.RUnlock()
+	return filePath, ok
+}
+
+// rememberPath records where a template was found
+func (l *FileSystemLoader) rememberPath(name, filePath string) {
+	l.pathsMu.Lock()
+	l.templatePaths[name] = filePath
+	l.pathsMu.Unlock()
+}
+
+// forgetPath drops the recorded location of a template
+func (l *FileSystemLoader) forgetPath(name string) {
+	l.pathsMu.Lock()
+	delete(l.templatePaths, name)
+	l.pathsMu.Unlock()
 }
 
 // ArrayLoader loads templates from an in-memory array
@@ -69,7 +94,7 @@ func NewFileSystemLoader(paths []string) *FileSystemLoader {
 // Load loads a template from the file system
 func (l *FileSystemLoader) Load(name string) (string, error) {
 	// Check if we already know the location of this template
-	if filePath, ok := l.templatePaths[name]; ok {
+	if filePath, ok := l.knownPath(name); ok {
 		// Check if file still exists at this path
 		if _, err := os.Stat(filePath); err == nil {
 			// Read file content
@@ -81,7 +106,7 @@ func (l *FileSystemLoader) Load(name string) (string, error) {
 			return string(content), nil
 		}
 		// If file doesn't exist anymore, remove from cache and search again
-		delete(l.templatePaths, name)
+		l.forgetPath(name)
 	}
 
 	// Check each path for the template
@@ -96,7 +121,7 @@ func (l *FileSystemLoader) Load(name string) (string, error) {
 		// Check if file exists
 		if _, err := os.Stat(filePath); err == nil {
 			// Save the path for future lookups
-			l.templatePaths[name] = filePath
+			l.rememberPath(name, filePath)
 
 			// Read file content
 			content, err := os.ReadFile(filePath)
@@ -139,12 +164,12 @@ func (l *FileSystemLoader) SetSuffix(suffix string) {
 // GetModifiedTime returns the last modification time of a template file
 func (l *FileSystemLoader) GetModifiedTime(name string) (int64, error) {
 	// If we already know where this template is, check that path directly
-	if filePath, ok := l.templatePaths[name]; ok {
+	if filePath, ok := l.knownPath(name); ok {
 		info, err := os.Stat(filePath)
 		if err != nil {
 			// If file doesn't exist anymore, remove from cache
 			if os.IsNotExist(err) {
-				delete(l.templatePaths, name)
+				l.forgetPath(name)
 			}
 			return 0, err
 		}
@@ -165,7 +190,7 @@ func (l *FileSystemLoader) GetModifiedTime(name string) (int64, error) {
 		info, err := os.Stat(filePath)
 		if err == nil {
 			// Save the path for future lookups
-			l.templatePaths[name] = filePath
+			l.rememberPath(name, filePath)
 
 			return info.ModTime().Unix(), nil
 		}
